@@ -46,7 +46,7 @@ def generate(rng, tier):
     if p["levelmax"] > 4:
         p["levelmax"] = 4
         p["levelmin"] = min(p["levelmin"], 4)
-    case = {"world": p, "sortby": None, "sink_missing": False, "warm": rng.random() < 0.2}
+    case = {"world": p, "sortby": None, "sink_missing": False, "warm": rng.random() < 0.2, "reload": rng.choice([None, None, None, None, None, None, None, "same", "same", "sink_only"])}
     if p["part"] is not None and rng.random() < 0.4:
         uniq = [c[0] for c in p["part"]["columns"] if c[1] in ("d", "i") and not re.search(r"_[xyz]$", c[0])]
         if uniq:
@@ -101,126 +101,146 @@ def execute(case, stats):
 
             V("load-exception", "load", {"error": core.scrub(f"{type(e).__name__}: {e}")[:300], "tb": core.scrub(traceback.format_exc())[-600:]})
             return res
-        ud, ul, ut = w.unit_d, w.unit_l, w.unit_t
-        # ------------------------------------------------------------ particles
-        if p["part"] is not None:
-            cols = w.part_columns()
-            counts = w.part_counts()
-            ids = [pid for cpu in range(1, w.ncpu + 1) for pid in w.part_ids(cpu)]
-            ntot = len(ids)
-            stats.inc("probe.rank_with_zero_particles", sum(1 for c in counts if c == 0))
-            if ntot == 0:
-                stats.inc("probe.world_with_no_particles_at_all")
-            types = {t for _, t in cols}
-            if sum(1 for c in counts if c > 0) >= 2 and len(types) >= 2:
-                res["nontrivial"] = True
-            if "part" not in ds:
-                V("part", "missing-group", {"groups": list(ds.keys())})
-            else:
-                part = ds["part"]
-                want = merge_names([c[0] for c in cols], w.ndim)
-                colidx = {c[0]: (i, c[1]) for i, c in enumerate(cols)}
-                perm = np.arange(ntot)
-                if case["sortby"] and ntot:
-                    ic, typ = colidx[case["sortby"]]
-                    keyvals = np.array([w.part_value(ic, typ, pid) for pid in ids], dtype=float)
-                    perm = np.argsort(keyvals, kind="stable")
+        for attempt in (("first", "reload") if case.get("reload") else ("first",)):
+            if attempt == "reload":
+                # one more call on the same dataset object (the same one, or one that reads the sink file only and keeps
+                # the particle group): the groups are judged again
+                stats.inc("probe.second_load_on_the_dataset=" + str(case["reload"]))
+                try:
+                    if case["reload"] == "sink_only":
+                        disk.load(ds=ds, select=["sink"])
+                    else:
+                        disk.load(ds=ds, **kw)
+                except Exception as e:
+                    V("load-exception", "reload", {"error": core.scrub(f"{type(e).__name__}: {e}")[:300]})
+                    break
+            n0 = len(viol)
+            ud, ul, ut = w.unit_d, w.unit_l, w.unit_t
+            # ------------------------------------------------------------ particles
+            if p["part"] is not None:
+                cols = w.part_columns()
+                counts = w.part_counts()
+                ids = [pid for cpu in range(1, w.ncpu + 1) for pid in w.part_ids(cpu)]
+                ntot = len(ids)
+                stats.inc("probe.rank_with_zero_particles", sum(1 for c in counts if c == 0))
                 if ntot == 0:
-                    # nothing stored: any (possibly empty) representation with zero rows is fine
-                    for k in part.keys():
-                        if len(components(part[k])[0].values.shape) and components(part[k])[0].values.shape[0] != 0:
-                            V("part", "rows-from-nowhere", {"key": k})
+                    stats.inc("probe.world_with_no_particles_at_all")
+                types = {t for _, t in cols}
+                if sum(1 for c in counts if c > 0) >= 2 and len(types) >= 2:
+                    res["nontrivial"] = True
+                if "part" not in ds:
+                    V("part", "missing-group", {"groups": list(ds.keys())})
                 else:
+                    part = ds["part"]
+                    want = merge_names([c[0] for c in cols], w.ndim)
+                    colidx = {c[0]: (i, c[1]) for i, c in enumerate(cols)}
+                    perm = np.arange(ntot)
+                    if case["sortby"] and ntot:
+                        ic, typ = colidx[case["sortby"]]
+                        keyvals = np.array([w.part_value(ic, typ, pid) for pid in ids], dtype=float)
+                        perm = np.argsort(keyvals, kind="stable")
+                    if ntot == 0:
+                        # nothing stored: any (possibly empty) representation with zero rows is fine
+                        for k in part.keys():
+                            if len(components(part[k])[0].values.shape) and components(part[k])[0].values.shape[0] != 0:
+                                V("part", "rows-from-nowhere", {"key": k})
+                    else:
+                        for key, raws in want.items():
+                            if key not in part:
+                                V("part", "missing-key", {"key": key, "keys": list(part.keys())})
+                                continue
+                            obj = part[key]
+                            comps = components(obj)
+                            if (len(raws) > 1) != isinstance(obj, osyris.Vector) or len(comps) != len(raws):
+                                V("part", "vector-assembly", {"key": key, "raw": raws})
+                                continue
+                            for comp, raw in zip(comps, raws):
+                                ic, typ = colidx[raw]
+                                stored = np.array([w.part_value(ic, typ, pid) for pid in ids], dtype=float)[perm]
+                                fam = family_of(raw)
+                                try:
+                                    obs = physical(comp.values, comp.unit, fam)
+                                except DimensionalityError:
+                                    V("part", "unit-label", {"key": raw, "unit": str(comp.unit), "family": fam})
+                                    continue
+                                wantv = stored * code_factor(fam, ud, ul, ut)
+                                if obs.shape != wantv.shape:
+                                    V("part", "row-count", {"key": raw, "rows": list(obs.shape), "want": ntot})
+                                elif not np.allclose(obs, wantv, rtol=1e-11, atol=0):
+                                    i = int(np.argmax(~np.isclose(obs, wantv, rtol=1e-11, atol=0)))
+                                    V("part", "values", {"key": raw, "type": typ, "row": i, "got": float(obs[i]), "want": float(wantv[i]),
+                                                         "sorted": bool(case["sortby"])})
+                        for k in part.keys():
+                            if k not in want:
+                                stats.inc("probe.extra_non_stored_key_in_part_group")  # e.g. a derived variable: not judged
+                    if ds.meta.get("nparticles") != ntot:
+                        V("part", "meta-nparticles", {"meta": int(ds.meta.get("nparticles", -1)), "rows": ntot})
+            elif "part" in ds and len(ds["part"].keys()):
+                V("part", "group-from-nowhere", {"keys": list(ds["part"].keys())})
+            # ------------------------------------------------------------ sinks
+            if p["sink"] is not None:
+                t = w.sink_table()
+                if "sink" not in ds:
+                    V("sink", "missing-group", {"groups": list(ds.keys())})
+                elif t is None:
+                    stats.inc("probe.empty_sink_file")
+                    if len(ds["sink"].keys()):
+                        V("sink", "empty-file-not-empty-group", {"keys": list(ds["sink"].keys())})
+                else:
+                    names, uexprs, rows = t
+                    sink = ds["sink"]
+                    rows = [[float(f"{v:.10e}") if n != "id" else float(int(v)) for n, v in zip(names, r)] for r in rows]
+                    if len(rows) >= 2:
+                        res["nontrivial"] = True
+                    if len(rows) == 1:
+                        stats.inc("probe.single_sink_row")
+                    want = merge_names(names, w.ndim)
                     for key, raws in want.items():
-                        if key not in part:
-                            V("part", "missing-key", {"key": key, "keys": list(part.keys())})
+                        if key not in sink:
+                            V("sink", "missing-key", {"key": key, "keys": list(sink.keys())})
                             continue
-                        obj = part[key]
+                        obj = sink[key]
                         comps = components(obj)
                         if (len(raws) > 1) != isinstance(obj, osyris.Vector) or len(comps) != len(raws):
-                            V("part", "vector-assembly", {"key": key, "raw": raws})
+                            V("sink", "vector-assembly", {"key": key, "raw": raws})
                             continue
                         for comp, raw in zip(comps, raws):
-                            ic, typ = colidx[raw]
-                            stored = np.array([w.part_value(ic, typ, pid) for pid in ids], dtype=float)[perm]
-                            fam = family_of(raw)
-                            try:
-                                obs = physical(comp.values, comp.unit, fam)
-                            except DimensionalityError:
-                                V("part", "unit-label", {"key": raw, "unit": str(comp.unit), "family": fam})
-                                continue
-                            wantv = stored * code_factor(fam, ud, ul, ut)
-                            if obs.shape != wantv.shape:
-                                V("part", "row-count", {"key": raw, "rows": list(obs.shape), "want": ntot})
-                            elif not np.allclose(obs, wantv, rtol=1e-11, atol=0):
-                                i = int(np.argmax(~np.isclose(obs, wantv, rtol=1e-11, atol=0)))
-                                V("part", "values", {"key": raw, "type": typ, "row": i, "got": float(obs[i]), "want": float(wantv[i]),
-                                                     "sorted": bool(case["sortby"])})
-                    for k in part.keys():
+                            ic = names.index(raw)
+                            col = np.array([r[ic] for r in rows])
+                            ue = uexprs[ic]
+                            if "[" in ue:
+                                stats.inc("probe.legacy_bracket_unit")
+                                lab = ue.strip("[]")
+                                wantu = osyris.units("dimensionless" if lab == "1" else lab)
+                                if comp.unit != wantu:
+                                    V("sink", "unit-label", {"key": raw, "unit": str(comp.unit), "want": lab})
+                                elif np.asarray(comp.values).shape != col.shape or not np.allclose(np.asarray(comp.values, dtype=float), col, rtol=1e-12, atol=0):
+                                    V("sink", "values", {"key": raw, "got": np.asarray(comp.values).tolist()[:3], "want": col.tolist()[:3]})
+                            else:
+                                e = parse_code_units(ue)
+                                factor = (ud * ul ** 3) ** e["m"] * ul ** e["l"] * ut ** e["t"]
+                                target = osyris.units(f"g**{e['m']} * cm**{e['l']} * s**{e['t']}")
+                                try:
+                                    q = (1.0 * comp.unit).to(target).magnitude
+                                except DimensionalityError:
+                                    V("sink", "unit-label", {"key": raw, "unit": str(comp.unit), "want": ue})
+                                    continue
+                                obs = np.asarray(comp.values, dtype=float) * q
+                                if obs.shape != col.shape:
+                                    V("sink", "row-count", {"key": raw, "rows": list(obs.shape), "want": len(rows)})
+                                elif not np.allclose(obs, col * factor, rtol=1e-11, atol=0):
+                                    V("sink", "values", {"key": raw, "unit": ue, "got": obs.tolist()[:3], "want": (col * factor).tolist()[:3]})
+                    for k in sink.keys():
                         if k not in want:
-                            stats.inc("probe.extra_non_stored_key_in_part_group")  # e.g. a derived variable: not judged
-                if ds.meta.get("nparticles") != ntot:
-                    V("part", "meta-nparticles", {"meta": int(ds.meta.get("nparticles", -1)), "rows": ntot})
-        elif "part" in ds and len(ds["part"].keys()):
-            V("part", "group-from-nowhere", {"keys": list(ds["part"].keys())})
-        # ------------------------------------------------------------ sinks
-        if p["sink"] is not None:
-            t = w.sink_table()
-            if "sink" not in ds:
-                V("sink", "missing-group", {"groups": list(ds.keys())})
-            elif t is None:
-                stats.inc("probe.empty_sink_file")
-                if len(ds["sink"].keys()):
-                    V("sink", "empty-file-not-empty-group", {"keys": list(ds["sink"].keys())})
-            else:
-                names, uexprs, rows = t
-                sink = ds["sink"]
-                rows = [[float(f"{v:.10e}") if n != "id" else float(int(v)) for n, v in zip(names, r)] for r in rows]
-                if len(rows) >= 2:
-                    res["nontrivial"] = True
-                if len(rows) == 1:
-                    stats.inc("probe.single_sink_row")
-                want = merge_names(names, w.ndim)
-                for key, raws in want.items():
-                    if key not in sink:
-                        V("sink", "missing-key", {"key": key, "keys": list(sink.keys())})
-                        continue
-                    obj = sink[key]
-                    comps = components(obj)
-                    if (len(raws) > 1) != isinstance(obj, osyris.Vector) or len(comps) != len(raws):
-                        V("sink", "vector-assembly", {"key": key, "raw": raws})
-                        continue
-                    for comp, raw in zip(comps, raws):
-                        ic = names.index(raw)
-                        col = np.array([r[ic] for r in rows])
-                        ue = uexprs[ic]
-                        if "[" in ue:
-                            stats.inc("probe.legacy_bracket_unit")
-                            lab = ue.strip("[]")
-                            wantu = osyris.units("dimensionless" if lab == "1" else lab)
-                            if comp.unit != wantu:
-                                V("sink", "unit-label", {"key": raw, "unit": str(comp.unit), "want": lab})
-                            elif np.asarray(comp.values).shape != col.shape or not np.allclose(np.asarray(comp.values, dtype=float), col, rtol=1e-12, atol=0):
-                                V("sink", "values", {"key": raw, "got": np.asarray(comp.values).tolist()[:3], "want": col.tolist()[:3]})
-                        else:
-                            e = parse_code_units(ue)
-                            factor = (ud * ul ** 3) ** e["m"] * ul ** e["l"] * ut ** e["t"]
-                            target = osyris.units(f"g**{e['m']} * cm**{e['l']} * s**{e['t']}")
-                            try:
-                                q = (1.0 * comp.unit).to(target).magnitude
-                            except DimensionalityError:
-                                V("sink", "unit-label", {"key": raw, "unit": str(comp.unit), "want": ue})
-                                continue
-                            obs = np.asarray(comp.values, dtype=float) * q
-                            if obs.shape != col.shape:
-                                V("sink", "row-count", {"key": raw, "rows": list(obs.shape), "want": len(rows)})
-                            elif not np.allclose(obs, col * factor, rtol=1e-11, atol=0):
-                                V("sink", "values", {"key": raw, "unit": ue, "got": obs.tolist()[:3], "want": (col * factor).tolist()[:3]})
-                for k in sink.keys():
-                    if k not in want:
-                        stats.inc("probe.extra_non_stored_key_in_sink_group")
-        elif "sink" in ds:
-            V("sink", "group-from-nowhere", {"keys": list(ds["sink"].keys())})
+                            stats.inc("probe.extra_non_stored_key_in_sink_group")
+            elif "sink" in ds:
+                V("sink", "group-from-nowhere", {"keys": list(ds["sink"].keys())})
+            if len(viol) > n0:
+                if attempt == "reload":
+                    for v_ in viol[n0:]:
+                        v_["clause"] += "@reload"
+                        v_["key"] = dict(v_["key"], clause=v_["clause"])
+                break
     stats.inc(f"swarm.ndim={p['ndim']}")
     res["signature"] = core.digest(case)[:20]
     return res
@@ -232,13 +252,15 @@ def measure(case):
     ncol = len(p["part"]["columns"]) if p["part"] else 0
     ns = (p["sink"]["nsink"] + len(p["sink"]["columns"])) if p["sink"] else 0
     return (p["ncpu"], npart, ncol, ns, p["levelmax"], p["ndim"], int(case["sortby"] is not None), len(p["hydro_vars"]), p["nboundary"],
-            int(p["units"] != [1.0, 1.0, 1.0]), p["maxcells"], int(bool(p["grav"])) + int(bool(p["rt_vars"])), int(bool(case.get("warm"))))
+            int(p["units"] != [1.0, 1.0, 1.0]), p["maxcells"], int(bool(p["grav"])) + int(bool(p["rt_vars"])), int(bool(case.get("warm"))) + int(bool(case.get("reload"))))
 
 
 def reductions(case, viol):
     p = case["world"]
     if case.get("warm"):
         yield dict(case, warm=False)
+    if case.get("reload"):
+        yield dict(case, reload=None)
     for q in world_reductions(p):
         # keep the part/sink population that the violation is about
         if viol["class"] == "part" and q.get("part") is None:
